@@ -60,11 +60,7 @@ let cmd_prep line =
       (match e with None -> "-" | Some e -> us (ocaml_string (any_err_msg e)))) (prep_text t))
 
 (* parse: tree as  ( k child.. )  /  [ k bytelen ]  then " | " then errors lo:hi:msg ; then " | nlex nstart" *)
-let msg_string (m : parse_msg) : ostring =
-  match m with
-  | MLit s -> ocaml_string s
-  | MExpected k -> "expected " ^ ocaml_string (tk_name k)
-  | MTok e -> ocaml_string (any_err_msg e)
+let msg_string (m : parse_msg) : ostring = ocaml_string (msg_text m)
 let rec tree_string (b : Buffer.t) (t : tree) : unit =
   match t with
   | Tok (k, txt) -> Buffer.add_string b (Printf.sprintf "[ %d %d ] " (int_of_n (sk_index k)) (int_of_n (bytes txt)))
